@@ -5,9 +5,9 @@ CONSTANTS
   GenFans <- Fans01
   Budgets <- BudgetsQ
   MaxDepth = 3
-  MaxQ = 4
-  MaxChase = 3
-  MaxDname = 2
+  MaxQ = 32
+  MaxChase = 10
+  MaxDname = 10
   TcpNotDebited = FALSE
   ShadowRejects = FALSE
   LeakBudgetFailure = FALSE
